@@ -559,8 +559,15 @@ def gen_buffers(rng, noise=False):
     devs.append({'k': 'K', 'n': 'K0', 'c': rng.choice(grid), 'up': cons})
     procs = names_of(spec, 'P')
     spec['actions'] = actions(rng, spec, rng.choice([0, 2, 4, 7]), procs, names_of(spec, ('P', 'H', 'B', 'BA')),
-                              names_of(spec, 'S'))
-    spec = finish(rng, spec, 'buffers-noise' if noise else 'buffers')
+                              names_of(spec, 'S'), names_of(spec, ('H', 'B')))     # one-shot offsets also on buffers
+    long_run = (not noise) and rng.random() < 0.12
+    spec = finish(rng, spec, 'buffers-noise' if noise else 'buffers', big=long_run)
+    if long_run:
+        # a long run in front of a bottleneck: the first buffer stays non-empty through hundreds of releases
+        for d in devs:
+            if d['k'] == 'S':
+                d['c'], d['budget'] = rng.choice([0.25, 0.5]), INF
+        spec['actions'] = [a for a in spec['actions'] if a[2] not in ('fail', 'shutdown', 'adjust')]
     if noise:
         spec['T'] = [rng.choice([7.3, 12.9, 19.9])]
         spec.pop('between', None)
@@ -660,6 +667,13 @@ def gen_interrupt(rng):
         # a machine (with its own sink) created between two simulate() calls, fed by an existing device
         feeders = [d['n'] for d in devs if d['k'] in ('S', 'B', 'P', 'H')]
         spec.setdefault('between', []).append([0, 'newline', [rng.choice(feeders)], rng.choice([0.5, 1, 2])])
+    if len(spec['T']) > 1 and rng.random() < 0.4:
+        # a source (with its own sink) created between two simulate() calls: its first cycle starts then
+        spec.setdefault('between', []).append([0, 'newsource', rng.choice([1, 2.5, 4, 8]), rng.choice([3, 8])])
+    if rng.random() < 0.3:
+        # one-shot offsets requested before the first run
+        tg = [d['n'] for d in devs if d['k'] in ('P', 'H', 'K')]
+        spec['pre_offsets'] = [[rng.choice(tg), rng.choice([0.5, 1, 2.5, -0.25])] for _ in range(rng.choice([1, 2]))]
     return spec
 
 
@@ -1044,7 +1058,13 @@ def well_posed(spec):
             elif b[1] in ('newsink', 'newline'):
                 if not b[2] or any(u not in names for u in b[2]):
                     return False
+            elif b[1] == 'newsource':
+                if not b[2] > 0 or not b[3] >= 1:
+                    return False
             elif b[2] not in names or (b[1] == 'rewire_add' and b[3] not in names):
+                return False
+        for (nm_, v_) in spec.get('pre_offsets', []):
+            if nm_ not in names:
                 return False
         for a in spec['actions']:
             if a[0] < 0 or a[1] <= 1:
